@@ -5,6 +5,7 @@ import (
 	"go/ast"
 	"go/token"
 	"regexp"
+	"sort"
 	"strings"
 )
 
@@ -286,6 +287,84 @@ end Generated.Order
 		eph["hasCall_set_for_calls"] = strings.Contains(c.Src(fd.Body), "if r.IsCall() { hasCall = true }")
 	}
 	c.Fact("order.ephemeral_session", eph)
+
+	// ---- cancellation and the handler queue (Order/Cancel.lean: `kill` touches no queue, `drop` removes the head only)
+	// Every statement of internal/jsonrpc2 that assigns to `handlerQueue` (whole or an element), per function; the body of
+	// Connection.Cancel; and, in handleAsync, what stands between taking the head and starting the handler goroutine.
+	cq := map[string]any{}
+	writers := []string{}
+	for _, f := range c.load("internal/jsonrpc2") {
+		for _, d := range f.Decls {
+			fd, ok := d.(*ast.FuncDecl)
+			if !ok || fd.Body == nil {
+				continue
+			}
+			name := fd.Name.Name
+			if fd.Recv != nil {
+				name = recvName(fd) + "." + name
+			}
+			ast.Inspect(fd.Body, func(n ast.Node) bool {
+				as, ok := n.(*ast.AssignStmt)
+				if !ok {
+					return true
+				}
+				for _, l := range as.Lhs {
+					if strings.Contains(c.Src(l), "handlerQueue") {
+						writers = append(writers, name+": "+c.Src(as))
+						break
+					}
+				}
+				return true
+			})
+		}
+	}
+	sort.Strings(writers)
+	cq["handlerQueue_writers"] = writers
+	if fd := c.Func("internal/jsonrpc2", "Connection", "Cancel"); fd != nil && fd.Body != nil {
+		var seq []string
+		for _, st := range fd.Body.List {
+			seq = append(seq, strings.Join(strings.Fields(c.Src(st)), " "))
+		}
+		cq["Cancel"] = seq
+	} else {
+		bad("Connection.Cancel not found")
+	}
+	if fd := c.Func("internal/jsonrpc2", "Connection", "handleAsync"); fd != nil && fd.Body != nil && len(fd.Body.List) == 1 {
+		if loop, ok := fd.Body.List[0].(*ast.ForStmt); ok {
+			var before []string
+			for _, st := range loop.Body.List {
+				if _, isGo := st.(*ast.GoStmt); isGo {
+					break
+				}
+				if is, isIf := st.(*ast.IfStmt); isIf {
+					hd := "if "
+					if is.Init != nil {
+						hd += c.Src(is.Init) + "; "
+					}
+					last := ""
+					if n := len(is.Body.List); n > 0 {
+						last = c.Src(is.Body.List[n-1])
+					}
+					before = append(before, hd+c.Src(is.Cond)+" { … "+last+" }")
+					continue
+				}
+				if es, isExpr := st.(*ast.ExprStmt); isExpr {
+					if call, isCall := es.X.(*ast.CallExpr); isCall {
+						before = append(before, c.Src(call.Fun)+"(…)")
+						continue
+					}
+				}
+				before = append(before, strings.Join(strings.Fields(c.Src(st)), " "))
+			}
+			cq["handleAsync_before_go"] = before
+		}
+	}
+	if fd := c.Func("mcp", "canceller", "Preempt"); fd != nil && fd.Body != nil {
+		src := c.Src(fd.Body)
+		cq["Preempt_go_Cancel"] = strings.Count(src, "go c.conn.Cancel(id)")
+		cq["Preempt_Cancel_calls"] = strings.Count(src, ".Cancel(")
+	}
+	c.Fact("order.cancel_and_queue", cq)
 
 	// ---- fan-out: notifySessions sends to one session after the other, synchronously, and returns after the loop.
 	// The Lean model's `fstep` (Order/Fan.lean) — `fret g` enabled only when every copy has been dealt with — and
